@@ -60,6 +60,8 @@ static inline void c15_plain_packet(struct vf_rng *r, uint8_t out[42], int mag, 
 }
 
 int  c15_idl_case(struct vf_rng *r, long idx);
+int  c15_idl_long_case(struct vf_rng *r, long idx);
+int  c15_pfc_long_case(struct vf_rng *r, long idx);
 void c15_idl_selftest(void);
 int  c15_pfc_case(struct vf_rng *r, long idx);
 void c15_pfc_selftest(void);
